@@ -1,7 +1,9 @@
 (* Wire commands of the Codec model (C06) for the correspondence driver.
      (c06_tok     h<hex> <off>)         -> (NAME pos len) ... done | err:<E>
-     (c06_load    <kind> h<hex> <off>)  -> ok <end> <caller|-> <rest|-> (NAME pos h<data>) ...   | err <class>
-     (c06_stacked <kind> h<hex> <off>)  -> ok <end> [ (NAME pos h<data>) ... ] [ ... ] ...        | err <class>
+     (c06_load    <kind> h<hex> <off>)  -> ok <caller|-> <rest|-> (NAME pos h<data>) ... d=h<dumps> | err <class>
+     (c06_stacked <kind> h<hex> <off>)  -> ok [ (NAME pos h<data>) ... ] [ ... ] ...              | err <class>
+   <caller> = position of the caller's stream afterwards, <rest> = number of bytes it can still read
+   (both "-" for a bytes object); <data> = the opcode's `data` property.
    kind = bytes | seek | nonseek.  Bytes travel as one hex atom and are converted with the native
    list conversions of ExtrOcamlNativeString (linear time). *)
 From Coq Require Import List String Ascii ZArith NArith Bool Arith.
@@ -82,17 +84,21 @@ Definition show_load (bs : list byte) (r : lres loaded) : string :=
   match r with
   | LErr e => show_lerr e
   | LOk l =>
-      String.concat " " (["ok"; nat_to_string (l_end l); show_opt_nat (l_caller l);
+      String.concat " " (["ok"; show_opt_nat (l_caller l);
                           show_opt_nat (match caller_rest bs l with
                                         | Some t => Some (List.length t) | None => None end)]
-                         ++ map show_opc (l_ops l))
+                         ++ map show_opc (l_ops l)
+                         ++ ["d=" ++ match dumps (l_ops l) with
+                                     | Ok d => wire_of_bytes d
+                                     | Err e => "ENCODE-" ++ err_name e
+                                     end])
   end.
 
 Definition show_stacked (r : lres (list (list opc) * nat)) : string :=
   match r with
   | LErr e => show_lerr e
   | LOk (ps, e) =>
-      String.concat " " (["ok"; nat_to_string e]
+      String.concat " " (["ok"]
                          ++ map (fun p => String.concat " " (["["] ++ map show_opc p ++ ["]"])) ps)
   end.
 
